@@ -24,11 +24,13 @@ type Env struct {
 	// rewritten to absolute positions so that the SMT trigger contains no arithmetic
 	probe   *anchorProbe
 	anchors map[*SIndex]string
+	anchorsC map[*SCall]string
 }
 
 type anchorProbe struct {
 	vars   map[string]string // bound variable name -> SMT symbol
 	found  map[string]*SIndex
+	foundC map[string]*SCall
 	shift  map[string]string
 }
 
@@ -582,8 +584,14 @@ func (e *Env) evalCall(n *SCall) Val {
 		return Val{T: intT, S: e.x.ghostCallCount(e.cur, cls)}
 	case "callarg", "callret":
 		cls := e.strArg(n, 0)
-		i := e.coerce(arg(1), intT)
 		j := e.intArg(n, 2)
+		if abs, ok := e.anchorsC[n]; ok {
+			return e.x.ghostCallSlot(e.cur, cls, n.Fun == "callret", j, abs)
+		}
+		if e.probe != nil {
+			e.probeAnchorCall(n)
+		}
+		i := e.coerce(arg(1), intT)
 		return e.x.ghostCallSlot(e.cur, cls, n.Fun == "callret", j, i.S)
 	case "callseq":
 		cls := e.strArg(n, 0)
@@ -802,6 +810,7 @@ func (e *Env) evalQuant(n *SQuant) Val {
 		// same state yields the same term text
 		vars = append(vars, qv{v.Name, t, sym(fmt.Sprintf("q_%s.%d", v.Name, len(e.x.qsyms)+len(vars)))})
 	}
+	var anchorsC map[*SCall]string
 	bind := func(shift map[string]string, anchors map[*SIndex]string, probe *anchorProbe) (string, []string) {
 		env := *e
 		env.vars = make(map[string]Val, len(e.vars)+len(vars))
@@ -815,6 +824,13 @@ func (e *Env) evalQuant(n *SQuant) Val {
 		}
 		for k, a := range anchors {
 			env.anchors[k] = a
+		}
+		env.anchorsC = map[*SCall]string{}
+		for k, a := range e.anchorsC {
+			env.anchorsC[k] = a
+		}
+		for k, a := range anchorsC {
+			env.anchorsC[k] = a
 		}
 		var guards []string
 		for _, v := range vars {
@@ -842,17 +858,21 @@ func (e *Env) evalQuant(n *SQuant) Val {
 		e.vc().Bound = e.vc().Bound[:len(e.vc().Bound)-len(vars)]
 	}()
 	// pass 1: probe for anchors
-	probe := &anchorProbe{vars: map[string]string{}, found: map[string]*SIndex{}, shift: map[string]string{}}
+	probe := &anchorProbe{vars: map[string]string{}, found: map[string]*SIndex{}, foundC: map[string]*SCall{}, shift: map[string]string{}}
 	for _, v := range vars {
 		if isInteger(v.t) && !e.vc().BV {
 			probe.vars[v.name] = v.symb
 		}
 	}
 	body, guards := bind(nil, nil, probe)
-	if len(probe.found) > 0 {
+	if len(probe.found) > 0 || len(probe.foundC) > 0 {
 		anchors := map[*SIndex]string{}
 		for name, node := range probe.found {
 			anchors[node] = probe.vars[name]
+		}
+		anchorsC = map[*SCall]string{}
+		for name, node := range probe.foundC {
+			anchorsC[node] = probe.vars[name]
 		}
 		body, guards = bind(probe.shift, anchors, nil)
 	}
@@ -904,6 +924,9 @@ func (e *Env) probeAnchor(n *SIndex, xv Val) {
 	if _, done := pr.found[vname]; done {
 		return
 	}
+	if _, done := pr.foundC[vname]; done {
+		return
+	}
 	// the variable must be bound by *this* quantifier and not shadowed
 	if cur, ok := e.vars[vname]; !ok || cur.S != pr.vars[vname] {
 		return
@@ -924,4 +947,47 @@ func (e *Env) probeAnchor(n *SIndex, xv Val) {
 	}
 	pr.found[vname] = n
 	pr.shift[vname] = shift
+}
+
+// probeAnchorCall: callarg/callret(cls, e + i, j) with i bound: re-express over k = e + i.
+func (e *Env) probeAnchorCall(n *SCall) {
+	pr := e.probe
+	ix, ok := n.Args[1].(*SBinary)
+	if !ok || ix.Op != "+" {
+		return
+	}
+	var vname string
+	var extra SExpr
+	if id, ok := ix.Y.(*SIdent); ok {
+		if _, isVar := pr.vars[id.Name]; isVar {
+			vname, extra = id.Name, ix.X
+		}
+	}
+	if vname == "" {
+		if id, ok := ix.X.(*SIdent); ok {
+			if _, isVar := pr.vars[id.Name]; isVar {
+				vname, extra = id.Name, ix.Y
+			}
+		}
+	}
+	if vname == "" {
+		return
+	}
+	if _, done := pr.found[vname]; done {
+		return
+	}
+	if _, done := pr.foundC[vname]; done {
+		return
+	}
+	if cur, ok := e.vars[vname]; !ok || cur.S != pr.vars[vname] {
+		return
+	}
+	ev := e.coerce(e.Eval(extra), intT)
+	for _, symb := range pr.vars {
+		if strings.Contains(ev.S, symb) {
+			return
+		}
+	}
+	pr.foundC[vname] = n
+	pr.shift[vname] = ev.S
 }
